@@ -15,7 +15,8 @@ ASSUME = ['queries are issued between steps only (the statement quantifies there
 CFGS = [{'host': 'plain', 'spied': False}, {'host': 'plain', 'spied': True}, {'host': 'instr', 'spied': True},
         {'host': 'queued', 'spied': True, 'instrumented': True}, {'host': 'queued', 'spied': False, 'instrumented': False},
         {'host': 'queued', 'spied': True, 'instrumented': False},
-        {'host': 'ao', 'spied': True, 'instrumented': True, 'named': True}, {'host': 'ao', 'spied': False, 'instrumented': True, 'named': True}]
+        {'host': 'ao', 'spied': True, 'instrumented': True, 'named': True}, {'host': 'ao', 'spied': False, 'instrumented': True, 'named': True},
+        {'host': 'queued', 'spied': False, 'deco': 'wraps'}]
 
 
 def run_case(ctx, n):
